@@ -29,12 +29,13 @@ const (
 )
 
 type session struct {
-	res *vh.Result
-	tr  *vh.Trace
-	r   *rand.Rand
-	agg map[string]*[8]int
-	files  int
-	events int
+	res         *vh.Result
+	tr          *vh.Trace
+	r           *rand.Rand
+	agg         map[string]*[8]int
+	files       int
+	events      int
+	expectFault bool // for the next run only
 }
 
 // rotate starts a new trace file when the current one is large (TLC loads a whole file into memory).
@@ -70,7 +71,9 @@ func (s *session) note(class string, o runOut) {
 // the gas it really needs.
 func (s *session) both(class, src string, script []byte, limit int64, base int64, marks []mark, note string) runOut {
 	s.rotate()
-	o := execute(s.res, s.tr, runSpec{Src: src, Script: script, Limit: limit, Base: base, Marks: marks, Note: note})
+	o := execute(s.res, s.tr, runSpec{Src: src, Script: script, Limit: limit, Base: base, Marks: marks, Note: note,
+		ExpectFault: s.expectFault})
+	s.expectFault = false
 	s.note(class, o)
 	if o.Panicked {
 		return o
@@ -139,15 +142,19 @@ func TestDriver(t *testing.T) {
 		}
 	}
 	for i, b := range bs {
-		script, marks, err := realize(b.Hist, i*7+int(vh.Seed()))
+		script, marks, expectFault, err := realize(b.Hist, i*7+int(vh.Seed()))
 		if err != nil {
 			res.Inc("behaviours_not_realised", 1)
 			continue
 		}
 		src := fmt.Sprintf("%s-%d", b.Kind, i)
+		s.expectFault = expectFault
 		o := s.both(b.Kind, src, script, bigLimit, bases[i%len(bases)], marks, "")
-		if o.MarksHit == len(marks) {
+		if o.MarksHit == len(marks) && (!expectFault || o.State == "FAULT") {
 			res.Inc("behaviours_replayed_to_the_end", 1)
+		}
+		if expectFault {
+			res.Inc("behaviours_ending_in_predicted_fault", 1)
 		}
 		if i%97 == 0 {
 			res.Sample(map[string]any{"src": src, "actions": len(b.Hist) - 1, "steps": o.Steps, "state": o.State,
@@ -187,6 +194,20 @@ func TestDriver(t *testing.T) {
 			if k == 0 && (lc.name == "items-append-loop" || lc.name == "invoc-call") {
 				res.Sample(map[string]any{"src": "limit-" + lc.name, "steps": o.Steps, "state": o.State, "max_walked": o.MaxWalk,
 					"max_idepth": o.MaxIDep})
+			}
+		}
+	}
+
+	// (c') exceptions raised by SETITEM / PICKITEM themselves, handled at every kind of place
+	for k := 0; k < rounds; k++ {
+		for i, lc := range genOOR(s.r) {
+			o := s.both("oor", "oor-"+lc.name, lc.script, bigLimit, bases[(i+k)%len(bases)], nil, lc.name)
+			res.Inc("oor_cases", 1)
+			if o.Halted {
+				res.Inc("oor_cases_handled", 1)
+			}
+			if k == 0 && i%150 == 7 {
+				res.Sample(map[string]any{"src": "oor-" + lc.name, "script": hex.EncodeToString(lc.script), "steps": o.Steps, "state": o.State})
 			}
 		}
 	}
